@@ -162,6 +162,13 @@ recorded as a finding.
   of the 40000-case run (or a decoder thread of an earlier case) was running.  A call that overruns is now
   measured a second time after `gc.collect()` and the smaller figure counts - a parser that is slow on an
   input is slow again.
+* C05 injector, one more unfair input (final stress pass, seed 2): a COOKIE ACK with the right verification tag
+  injected into a client in COOKIE_ECHOED whose COOKIE ECHO had been lost.  The client - rightly - took it for the
+  server's answer, became established and sent DATA to a server that had only seen the INIT; a duplicated INIT then
+  reset the server's cumulative TSN and the acknowledged chunk was forgotten: wedged.  Without the forged chunk
+  the client never sends DATA before the server is established, so the INIT guard (`state != CLOSED`) holds.
+  Forging the peer's handshake step is a lying peer, not a nonsensical datagram: INIT ACK / COOKIE ACK aimed at
+  a client that is waiting for exactly that chunk are now sent as an unknown chunk type.
 * Harness robustness (round 7 of the seeded changes): a change that makes `NackGenerator.add` loop and allocate
   without bound drove C05's check to 7 GB in two minutes, and the "overran under load: retry with ten times the
   budget" rule would have let the second attempt eat the machine.  The retry now happens only when the machine
